@@ -106,6 +106,7 @@ func Explain(c Case) (out Case) {
 		if err != nil {
 			panic("explain.ParseCNF returned an error on a well-formed file: " + err.Error())
 		}
+		pb.Options.Verbose = boolean(c, "verbose") // a configuration of the caller: messages on stdout, same answers
 		return pb
 	}
 	// one Problem object for the whole case: a caller may run several extractions / checks on it
